@@ -10,27 +10,37 @@ SOURCES = ['src/opus_encoder.c', 'src/opus_decoder.c', 'src/opus_multistream_enc
            'include/opus_defines.h', 'src/opus_private.h', 'celt/celt.h', 'src/mapping_matrix.c']
 RULE = ('per object kind and request an exhaustive value grid (all in-range values of small domains, boundaries +-1, '
         'INT_MIN/INT_MAX, sentinels) with every getter and the hidden state fields compared after EVERY call; random '
-        'ctl histories interleaved with encode/decode calls; forced-settings histories with exact prediction of '
-        'mode/bandwidth/channels/toMono; create/init argument grids incl. k-th allocation failure; gen_toc on its whole '
-        'domain; frame_size_select grid; random settings fixed before the first frame -> TOC of every packet. A case is '
-        'distinct by (suite, op, outcome kind)')
+        'ctl histories interleaved with encode/decode calls, where after every opus_encode the state left behind must be '
+        'what the Lean step function computes for SOME value of the DSP-dependent inputs (720-point oracle grid) and inside '
+        'the invariant ranges; forced-settings histories with exact prediction of mode/bandwidth/channels/toMono; '
+        'create/init argument grids incl. k-th allocation failure and init on caller memory; gen_toc on its whole domain; '
+        'frame_size_select grid; random settings fixed before the first frame (plus a mid-stream FORCE_CHANNELS change) -> '
+        'TOC of every packet; a deterministic corpus case (forced mono during a SILK-DTX run). S4 evaluates '
+        'reject-unchanged / read-back / documented-legality / create predicates on the implementation output alone. '
+        'A case is distinct by (suite, op, outcome kind)')
 NOT_COVERED = [
     'the DSP-dependent decisions inside opus_encode_native (rate-dependent stereo/mode/bandwidth thresholds, detected '
-    'bandwidth, decide_fec, SILK internal rate) are oracle parameters of the model: theorems hold for all their values, '
-    'the implementation side of them is only searched (honour suite)',
-    'multistream/projection encode: the per-stream state after an encode call is adopted from the implementation '
-    '(rate allocation and the surround overrides of bandwidth/mode/channels are not modelled); the honour clauses are '
-    'checked on single-stream encoders only',
+    'bandwidth, decide_fec, SILK internal rate, whether SILK turns a frame into DTX) are oracle parameters of the model: '
+    'the theorems hold for all their values, the implementation side of them is only searched (suites ctl-honour, ctl-rand)',
+    'TOC-only packets emitted when the byte budget is below 3 bytes (opus_encoder.c:1267-1333) carry the mode/bandwidth/'
+    'channel bits of the PREVIOUS frame state; only their duration is proved (honour_duration); they hold no coded audio '
+    'and are treated like DTX packets by the honour clauses',
+    'multistream/projection encode: the per-stream state after an encode call is adopted from the implementation (rate '
+    'allocation and the surround overrides of bandwidth/mode/channels are not modelled; ranges, common application and '
+    'stream order of `first` are monitored); the honour clauses are proved and searched on single-stream encoders only',
     'OPUS_SET_DNN_BLOB / DRED / OSCE requests (not compiled in this configuration); opus_custom_* API; '
     'OPUS_PROJECTION_GET_DEMIXING_MATRIX payload bytes (only size/pointer validation is modelled)',
     'projection decoder creation arguments (its ctl is covered: identical to the multistream decoder ctl)',
+    'an opus_encode call that fails after the entry checks (negative return from the DSP layers) may leave a partially '
+    'updated decision state: only the invariant ranges are monitored for it',
 ]
 ASSUMPTIONS = [
     'a request number is always passed with the argument type its macro prescribes (anything else is undefined behaviour of '
     'the varargs protocol)',
-    'SILK reports an internal sampling rate not above the desired one when the settings were constant since the first frame '
-    '(contract of honour_bandwidth for SILK-only packets; monitored by the honour suite)',
+    'SILK reports an internal sampling rate not above the desired one (contract SilkBwContract of honour_bandwidth for '
+    'SILK-only packets; the resulting TOC bandwidth is checked on every packet by suite ctl-honour)',
     'opus_alloc is plain malloc (allocation failure is injected with ld --wrap=malloc)',
+    'encode calls inside a history satisfy the monitored contract Opus.Ctl.encodeContract (checked after every call)',
 ]
 REQUIRED_THEOREMS = ['OpusProps.C11.' + n for n in (
     'set_get', 'set_get_decoder', 'set_get_multistream', 'bandwidth_reported_after_frame',
@@ -49,13 +59,16 @@ UNPROVED = [
     'projection encoder/decoder creation and the surround layout tables: modelled and tied (suite ctl-create), no theorem',
 ]
 LEVEL_TEXT = ('proof of the modelled chain: every ctl request of encoder/decoder/multistream/projection objects as a state '
-              'machine with set/get read-back, rejection-leaves-state-unchanged and a range invariant over all request and '
-              'encode histories; frame_size_select, gen_toc and the channels/mode/bandwidth clamp chain of '
-              'opus_encode_native proved to bind the TOC (duration, channel count, bandwidth limit, CELT-only cases) for ALL '
-              'values of the DSP-dependent inputs; tied to the code by exact differential comparison of return codes, all '
-              'getters and hidden state after every call')
+              'machine, proved against documented legal-value tables: set/get read-back, rejection-leaves-state-unchanged (also '
+              'for fanned-out multistream setters), a range invariant over all request and encode histories, create/init '
+              'validation; frame_size_select, gen_toc and the channels/mode/bandwidth chain of opus_encode_native with its '
+              'state update proved to bind the TOC (duration, channel count incl. the mid-stream mono switch, bandwidth limit, '
+              'CELT-only cases) for ALL values of the DSP-dependent inputs; constants regenerated from the headers; tied to '
+              'the code by exact differential comparison of return codes, all getters and hidden state after every call and '
+              'by an oracle-existence check of the state left by every encode call')
 LEVEL_NOTE = ('trusted: Lean kernel; harness + line protocol; DSP-dependent decisions are universally quantified oracles '
-              '(their implementation is searched, not proved); C int as unbounded Int (all products < 2^31 on the legal domain)')
+              '(their implementation is searched, not proved); C int as unbounded Int (all products < 2^31 on the legal domain, '
+              'not a theorem); two read-back deviations are recorded known findings (GET_BANDWIDTH, multistream GET_BITRATE)')
 TECHNIQUE = 'Lean 4 theorems over an executable ctl/decision-chain model + differential correspondence + witness search'
 
 _EXTRA = ['-Wl,--wrap=malloc', '-Wl,--wrap=free']
